@@ -16,3 +16,10 @@ TRUSTED_TRACKS = [
 
 def ua_units(tier):
     return useractions.units(UA_ALL)
+
+
+def model_checks(tier, groups="networkx", shape=True, seed=0):
+    """native cross-checks of the trusted base: the declared heap shape against real objects, and the assumed library
+    contracts against the real libraries on random small inputs (bounded; they prove nothing)"""
+    from pyvc.native_bridge import bounded_conformance, bounded_shape
+    return ([bounded_shape(tier)] if shape else []) + [bounded_conformance(tier, groups, seed)]
